@@ -10,7 +10,55 @@ VERIF = os.path.dirname(os.path.abspath(__file__))
 
 ALL = ["C%02d" % i for i in range(1, 19)]
 
+_CHAN_NOTE = ("Trusts the vsim model of mutex/condition/join (POSIX semantics, sequential consistency, no spurious wake-ups), the "
+              "behavioural ledger in harness/chan/chan.cpp (reads no field of struct channel) and AddressSanitizer. Interleavings are explored "
+              "at channel-call granularity plus an explicit pause between the writer's wait-condition check and its sleep; "
+              "abort_write+write_unmap is one writer step (as in source.c); a mapped reader never maps again.")
+
 CHECKS = {
+    "C01": {
+        "level": "exploration",
+        "text": "The real channel.c runs on the real platform.c whose pthread calls are renamed onto a deterministic fiber scheduler. Generated "
+                "tapes (capacity 2..4096, write sizes incl. exact-fit modes, commit/abort, up to 8 readers joining any time, partial/over/zero "
+                "consumption, accept toggles, explicit interleaving) are compared with a reference log of committed bytes and a cursor per reader: "
+                "every mapped region must continue exactly at the reader's cursor with the committed byte values, and an empty region is accepted "
+                "only when the cursor equals the committed total; at the end every reader must drain to the total. Exploration with shrinking is the "
+                "right level for a for-all over unbounded histories.",
+        "note": _CHAN_NOTE,
+        "technique": "model-based property testing (rapidcheck tapes, explicit interleaving via deterministic scheduler) against a reference byte log",
+        "design_ref": "DESIGN.md section 3, harness chan, C01",
+    },
+    "C02": {
+        "level": "exploration",
+        "text": "Same runs as C01 with a separate verdict: every region handed to the writer must lie in the buffer and contain no physical byte "
+                "whose committed offset is still unconsumed or mapped by any reader (interval ledger), NULL is accepted only for oversize requests or "
+                "refused writes, reader regions must consist of committed bytes only and are re-compared byte-for-byte immediately before unmap.",
+        "note": _CHAN_NOTE,
+        "technique": "model-based property testing (rapidcheck tapes) with an ownership ledger per physical byte",
+        "design_ref": "DESIGN.md section 3, harness chan, C02",
+    },
+    "C03": {
+        "level": "exploration",
+        "text": "The writer runs as a fiber; the director drives it into write_map until it is observed asleep or paused exactly between its "
+                "condition check and its sleep, then generates consuming unmaps or refuse-writes at every such instant. Oracle at quiescence: "
+                "after a refusal the writer must have returned NULL; with all readers drained and writes accepted it must have returned a region; "
+                "readers drain within a bounded number of rounds. A sleeping writer with nobody left to wake it is a detected deadlock, not a timeout.",
+        "note": _CHAN_NOTE + " Liveness is decided as absence of deadlock at quiescence for finite generated histories.",
+        "technique": "property-based testing with a deterministic scheduler (explicit check-then-sleep window) and a deadlock oracle",
+        "design_ref": "DESIGN.md section 3, harness chan, C03",
+    },
+    "C11": {
+        "level": "exploration",
+        "text": "Generated HAL call sequences on up to 3 cameras and 3 storages run against an in-process mock driver whose every response "
+                "(Ok/Err, any DeviceState incl. out-of-range) is scripted by the tape. A protocol monitor inside the mock flags stop without a "
+                "running device, get_frame/append outside running, calls after close, double/missing close (also on open failure paths); released "
+                "devices are snapshotted and re-compared after every step (a write after close is reported with its offset); the HAL-reported "
+                "state is compared with a transition model derived from the driver's last response.",
+        "note": "Trusts the transition model in harness/hal/hal.cpp, complete callback tables, no calls on closed handles by the caller (HAL contract), "
+                "and that a released device is kept (not freed) by the mock so that a write is observable; AddressSanitizer for everything else.",
+        "technique": "property-based testing (rapidcheck call sequences x scripted driver responses) with protocol monitor; libFuzzer on the same target",
+        "design_ref": "DESIGN.md section 3, harness hal",
+    },
     "C13": {
         "level": "exploration",
         "text": "Generated init/set/copy/destroy sequences over three StorageProperties objects (rapidcheck tapes, libFuzzer in the "
